@@ -5,7 +5,11 @@
    leading into a cycle, dangling reference (local and cross-module), cross-module
    placement of every definition, missing import, module not supplied, unused
    cyclic definitions; plus import graphs, include graphs and augment / deviation
-   combinations between modules.  Chunk(c) is one family (one TLC initial state). *)
+   combinations between modules; definitions scoped in statements reached through
+   any nesting (scoped: I.spath), one statement with the wrong kind of schema node id
+   or a target of the wrong kind (illformed: I.ill), a name defined as another kind
+   (kindmix), one prefix string bound to different modules by two modules (homonym).
+   Chunk(c) is one family (one TLC initial state). *)
 EXTENDS CompilePipeline
 
 Base == [fam |-> "", shape |-> "", mods |-> Mods, imp |-> {}, subs |-> {}, inc |-> {}, defs |-> {},
